@@ -67,6 +67,10 @@ type E2ECall struct {
 	// SendCtxEnds (send only): Send runs under a context of its own that is
 	// cancelled as soon as Send has returned; the receives run under theirs.
 	SendCtxEnds bool `json:"send_ctx_ends,omitempty"`
+	// TypedOut: the client passes a typed struct { Field int `json:"field"` } for
+	// the reply parameters, as generated clients do (only for calls whose script
+	// answers with an error carrying "field": a string).
+	TypedOut bool `json:"typed_out,omitempty"`
 }
 
 func (s *E2EScenario) Cfg() sim.Config { return s.Config }
@@ -184,7 +188,10 @@ func (s *E2EScenario) Setup(k *sim.Kernel) {
 			})
 		}
 		k.Spawn(sf("client%d", ci), func() {
-			sim.Await(sim.Cond{Kind: sim.CondBound, S1: network, S2: addr})
+			if cl.Transport != "bridge" {
+				// (a bridge client talks to its pipe; the bridge task does the dialling)
+				sim.Await(sim.Cond{Kind: sim.CondBound, S1: network, S2: addr})
+			}
 			if cl.StartUs > 0 {
 				sim.Sleep(time.Duration(cl.StartUs) * time.Microsecond)
 			}
@@ -196,6 +203,17 @@ func (s *E2EScenario) Setup(k *sim.Kernel) {
 			sim.Rec("c.dial", sf(`{"client":%d,"conn":%d}`, ci, sim.ConnID(ep)))
 			ctx := context.Background()
 			expected := s.expectedReads(cl)
+			type heldErr struct {
+				err  error
+				call int
+				said string
+			}
+			var held []heldErr
+			say := func(err error) string {
+				var r e2eReply
+				describeClientErr(err, &r)
+				return r.Err + "|" + r.ErrName + "|" + r.ErrField + "|" + r.ErrParams
+			}
 			type pending struct {
 				i    int
 				recv func(context.Context, interface{}) (uint64, error)
@@ -208,7 +226,19 @@ func (s *E2EScenario) Setup(k *sim.Kernel) {
 				queue = queue[1:]
 				for j := 0; j < expected[p.i]; j++ {
 					var out json.RawMessage
-					flags, err := p.recv(p.ctx, &out)
+					var flags uint64
+					var err error
+					if cl.Calls[p.i].TypedOut {
+						var tout struct {
+							Field int `json:"field"`
+						}
+						flags, err = p.recv(p.ctx, &tout)
+					} else {
+						flags, err = p.recv(p.ctx, &out)
+					}
+					if err != nil {
+						held = append(held, heldErr{err, p.i, say(err)})
+					}
 					r := e2eReply{Client: ci, Call: p.i, J: j, Flags: flags, Out: string(out)}
 					describeClientErr(err, &r)
 					sim.Rec("c.reply", mustJSON(r))
@@ -236,6 +266,9 @@ func (s *E2EScenario) Setup(k *sim.Kernel) {
 					}
 					var out json.RawMessage
 					err := conn.Call(ctx, call.Method, rawOrNil(call.Params), &out)
+					if err != nil {
+						held = append(held, heldErr{err, i, say(err)})
+					}
 					r := e2eReply{Client: ci, Call: i, Out: string(out)}
 					describeClientErr(err, &r)
 					sim.Rec("c.reply", mustJSON(r))
@@ -275,6 +308,12 @@ func (s *E2EScenario) Setup(k *sim.Kernel) {
 			}
 			for len(queue) > 0 && !broken {
 				broken = !drain()
+			}
+			// an error value keeps saying what it said when it was returned
+			for _, h := range held {
+				if now := say(h.err); now != h.said {
+					sim.Rec("c.errchanged", sf(`{"client":%d,"call":%d,"was":%q,"now":%q}`, ci, h.call, h.said, now))
+				}
 			}
 			sim.Rec("c.done", sp(ci))
 			sim.Await(sim.Cond{Kind: sim.CondQuiescent})
@@ -433,6 +472,8 @@ func (s *E2EScenario) Check(k *sim.Kernel) []sim.Violation {
 				}
 			}
 			out = append(out, vio("client", "send-failed", "Send failed: %s", e.Data))
+		case "c.errchanged":
+			out = append(out, vio("client", "error-value-changed", "an error value returned by the client API says something else at the end of the run than when it was returned: %s", abbreviate(e.Data, 300)))
 		case "c.retry":
 			var r struct {
 				Client, Call int
@@ -775,7 +816,7 @@ func genE2E(g *Gen, prop string, params func() string, script func(more bool) Sc
 		if len(cids) > 0 && s.Service.TimeoutNs == 0 {
 			c := cids[g.IntN(len(cids))]
 			sc := s.Scripts[c]
-			sc.Actions = append([]Action{{Op: "shutdown"}}, sc.Actions...)
+			sc.Actions = append([]Action{{Op: "shutdown", N: len(s.Clients)}}, sc.Actions...)
 			s.Scripts[c] = sc
 			// (everybody has to be connected by then)
 			for ci := range s.Clients {
@@ -1095,5 +1136,18 @@ func genC12(seed uint64, tier string) Scenario {
 		}
 		return sc
 	}
-	return genE2E(g, "C12", func() string { return g.ParamsObject(0) }, script, 30)
+	s := genE2E(g, "C12", func() string { return g.ParamsObject(0) }, script, 30)
+	// a typed out-parameter whose member collides with a member of the error's parameters
+	for ci := range s.Clients {
+		for i := range s.Clients[ci].Calls {
+			c := &s.Clients[ci].Calls[i]
+			sc := s.Scripts[c.Cid]
+			if c.Via == "send" && c.Flags == 0 && len(sc.Actions) == 1 && sc.Actions[0].Op == "error" && errorNameSendable(sc.Actions[0].Name) && g.Pct(40) {
+				sc.Actions[0].Params = `{"field":"seventeen","other":[1,2]}`
+				s.Scripts[c.Cid] = sc
+				c.TypedOut = true
+			}
+		}
+	}
+	return s
 }
